@@ -36,7 +36,7 @@ Main theorems
 * 4  `C04_while_loop` (against `Sem.execWhile` through `whilePasses`, `whilePasses_execWhile`)
 * 6  `C04_sortNames_sorted`, `C04_sortNames_perm`, `C04_lightNames`, `C04_groupNames`,
      `C04_locationNames`, `C04_groupLights`, `C04_locationLights`, `C04_groupLights_nodup`,
-     `C04_iter_names_append`, `C04_iter_names_order`
+     `C04_prevName_sorted`, `C04_nextName_sorted`, `C04_iter_names_append`, `C04_iter_names_order`
 Not proved here (left to the differential check): that the discovery code `Gen.iterLights` /
 `iterSets` / `iterMembers` pushes exactly the names of `Sem.iterNames` (the `repeat all|group|
 location|in` prologues), and operands of the index-variable forms that are expressions or calls.
@@ -2368,6 +2368,67 @@ theorem C04_groupLights_nodup (s : State) (g : String) (ms : List String)
   have hp := (C04_groupLights s g ms h).2
   rw [hp.nodup_iff]
   exact (hd.sublist ((List.filter_sublist).map _))
+
+/-- in a strictly ascending list the names below the `i`-th are exactly the first `i` -/
+theorem filter_lt_sorted (xs : List String) (h : xs.Pairwise (· < ·)) (i : Nat) (hi : i < xs.length) :
+    xs.filter (· < xs[i]) = xs.take i := by
+  induction xs generalizing i with
+  | nil => simp at hi
+  | cons a t ih =>
+    rw [List.pairwise_cons] at h
+    cases i with
+    | zero =>
+      simp only [List.getElem_cons_zero, List.take_zero]
+      rw [List.filter_eq_nil_iff]
+      intro y hy
+      rcases List.mem_cons.1 hy with rfl | hy
+      · simp
+      · simpa using String.lt_asymm (h.1 y hy)
+    | succ i =>
+      have hi' : i < t.length := by simpa using hi
+      simp only [List.getElem_cons_succ, List.take_succ_cons]
+      rw [List.filter_cons, if_pos (by simpa using h.1 _ (List.getElem_mem hi')), ih h.2 i hi']
+
+/-- **`SortedList.prev`** on a strictly ascending list: the predecessor of the `i`-th name is the
+`(i−1)`-th, and the first has none — so walking `prev` from the last name visits every name
+exactly once, in descending order (the discovery loops push them in that order, which makes
+the first name the first one popped) -/
+theorem C04_prevName_sorted (xs : List String) (h : xs.Pairwise (· < ·)) (i : Nat) (hi : i < xs.length) :
+    prevName xs xs[i] = if i = 0 then none else xs[i - 1]? := by
+  unfold prevName
+  rw [filter_lt_sorted xs h i hi]
+  cases i with
+  | zero => simp
+  | succ i =>
+    simp only [Nat.add_one_ne_zero, if_false, Nat.add_sub_cancel]
+    rw [List.getLast?_eq_getElem?]
+    simp only [List.length_take, Nat.min_eq_left (Nat.le_of_lt hi), Nat.add_sub_cancel]
+    rw [List.getElem?_take]; simp
+
+/-- **`SortedList.next`**: the successor of the `i`-th name is the `(i+1)`-th -/
+theorem C04_nextName_sorted (xs : List String) (h : xs.Pairwise (· < ·)) (i : Nat) (hi : i < xs.length) :
+    nextName xs xs[i] = xs[i + 1]? := by
+  unfold nextName
+  induction xs generalizing i with
+  | nil => simp at hi
+  | cons a t ih =>
+    rw [List.pairwise_cons] at h
+    cases i with
+    | zero =>
+      simp only [List.getElem_cons_zero, List.find?_cons, String.lt_irrefl, decide_false]
+      cases t with
+      | nil => rfl
+      | cons b t' =>
+        have : a < b := h.1 b (by simp)
+        simp [this]
+    | succ i =>
+      have hi' : i < t.length := by simpa using hi
+      have hlt : a < t[i] := h.1 _ (List.getElem_mem hi')
+      have : ¬ t[i] < a := String.lt_asymm hlt
+      simp only [List.getElem_cons_succ, List.find?_cons, this, decide_false]
+      rw [ih h.2 i hi']
+      simp
+
 
 section IterNames
 open Sem
